@@ -4,7 +4,38 @@ from common import parse_coq_values, TranslatorAbort, coq_list
 import shapes, vmcases, ircoq
 from translate import t_parser
 
-STATIC = ["Base/Types.v", "Spec/Prec.v", "Model/ParserSR.v", "Proofs/SRParser.v", "Harness/PrecLib.v"]
+STATIC = ["Base/Types.v", "Spec/Prec.v", "Model/ParserSR.v", "Proofs/SRParser.v", "Harness/PrecLib.v", "Model/Lexer.v", "Proofs/LexerProofs.v"]
+
+LHEADER = """From Coq Require Import String Ascii ZArith List Bool.
+From NSL Require Import Base.Util Base.Types Model.Lexer Harness.LexLib.
+Import ListNotations.
+Open Scope Z_scope.
+Definition cs (s : string) : list ascii := list_ascii_of_string s.
+"""
+LEXMAP = {"PLUS": "LOp OAdd", "MINUS": "LOp OSub", "TIMES": "LOp OMul", "DIVIDE": "LOp ODiv", "MOD": "LOp OMod", "LOR": "LOp OLor", "LAND": "LOp OLand",
+          "EQ": "LOp OEq", "NE": "LOp ONe", "LT": "LOp OLt", "LE": "LOp OLe", "GT": "LOp OGt", "GE": "LOp OGe", "EQUALS": "LAssign", "(": "LParL", ")": "LParR"}
+
+
+def coq_str(t):
+    return '"%s"%%string' % t.replace('"', '""')
+
+
+def impl_ltoks(toks, keywords):
+    """the real token stream as Coq ltok list, or None when a token is outside the model's alphabet"""
+    out = []
+    for ty, val in toks:
+        if ty == "ID":
+            out.append("LId (cs %s)" % coq_str(val))
+        elif ty == "INT_CONST_DEC" and val.lstrip("+-").isdigit():
+            sg = "None" if val[0].isdigit() else ("(Some true)" if val[0] == "-" else "(Some false)")
+            out.append("LInt %s (cs %s)" % (sg, coq_str(val.lstrip("+-"))))
+        elif ty == "INT_CONST_OCT" and val == "0":
+            out.append("LInt None (cs %s)" % coq_str("0"))
+        elif ty in LEXMAP:
+            out.append(LEXMAP[ty])
+        else:
+            return None
+    return "(Some [%s])" % "; ".join(out)
 
 OPS = ["||", "&&", "==", "!=", "<", "<=", ">", ">=", "+", "-", "*", "/", "%"]
 COQ_OP = dict(zip(OPS, ["OLor", "OLand", "OEq", "ONe", "OLt", "OLe", "OGt", "OGe", "OAdd", "OSub", "OMul", "ODiv", "OMod"]))
@@ -297,6 +328,31 @@ def run(ctx):
         open(f, "w").write(HEADER + "Definition cases : list Z := [\n  " + ";\n  ".join(lines[k:k + per]) + "].\nEval vm_compute in cases.\n")
         files.append(f)
 
+    # ---- lexer: the token stream of the real lexer against the lexer model, on layouts and on strings where neighbours merge
+    ltexts = []
+    pure = [it for k, it in cases if k in ("pair", "triple", "pair-par-left", "pair-par-right", "pair-asg", "triple-par") or k.startswith("all-parens")]
+    for it in (rng.sample(pure, min(len(pure), 250 if quick else 3000))):
+        lx = lexemes(it)
+        lx = [x if not x.startswith("a") or rng.random() < 0.7 else str(rng.choice([0, 1, 7, 10, 42, 305])) for x in lx]
+        for lay in LAYOUTS:
+            ltexts.append(("layout", render(lx, lay, rng)))
+    pieces = ["a", "b1", "_x", "0", "7", "12", "+", "-", "*", "/", "%", "<", ">", "<=", ">=", "==", "!=", "&&", "||", "=", "(", ")", " ", "  ", "\n", "\t", "", "", ""]
+    for _ in range(600 if quick else 8000):
+        ltexts.append(("adjacent", "".join(rng.choice(pieces) for _ in range(rng.randrange(2, 9)))))
+    lres = ctx.run_impl("c08_impl.py", [{"k": "lex", "text": t} for _, t in ltexts], nworkers=8)
+    llines, lmeta2 = [], []
+    for (kind, t), r in zip(ltexts, lres):
+        if "error" in r or r.get("illegal"):
+            continue
+        it = impl_ltoks(r["tokens"], None)
+        # keywords are identifiers for the model; the caller tells them apart
+        llines.append("lchk %s %s" % (coq_str(t), it if it is not None else "None")); lmeta2.append((kind, t, r["tokens"]))
+    lfiles = []
+    for k in range(0, len(llines), 500):
+        f = os.path.join(ctx.dyn, "cases_C08l_%d.v" % (k // 500))
+        open(f, "w").write(LHEADER + "Definition cases : list Z := [\n  " + ";\n  ".join(llines[k:k + 500]) + "].\nEval vm_compute in cases.\n")
+        lfiles.append(f)
+
     # ---- values: what the VM computes for operand values, against the reference semantics on the prescribed grouping
     names = ["a0", "a1", "a2", "a3", "a4"]
     vcases = [(k, it) for k, it in grid(True, rng) if k in ("pair", "triple", "pair-par-left", "pair-par-right", "triple-par", "pair-asg")]
@@ -332,7 +388,17 @@ def run(ctx):
         open(f, "w").write(VHEADER + "".join(d for d, _ in chunk) + "Definition cases : list Z := [\n  " + ";\n  ".join(e for _, e in chunk) + "].\nEval vm_compute in cases.\n")
         vfiles.append(f)
 
-    outs = ctx.eval_cases(files + vfiles, timeout=900)
+    outs = ctx.eval_cases(files + vfiles + lfiles, timeout=900)
+    lcodes = []
+    for f in lfiles:
+        ok, out, err = outs[f]
+        vals = parse_coq_values(out) if ok else []
+        if not ok or not vals or not isinstance(vals[0], list):
+            ctx.broken.append("correspondence: %s did not evaluate: %s" % (os.path.basename(f), err[-300:]))
+            lcodes.extend([None] * min(500, len(llines) - len(lcodes)))
+        else:
+            lcodes.extend(vals[0])
+    lbad = [m for m, c in zip(lmeta2, lcodes) if c not in (None, 0)]
     codes = []
     for f in files:
         ok, out, err = outs[f]
@@ -361,6 +427,7 @@ def run(ctx):
     ctx.extra["disagreements_checked"] = len(codes) + len(vcodes)
     from collections import Counter
     ctx.extra["value_skip_ops"] = dict(Counter(tuple(sorted(set(re.findall(r"[|&=!<>+*/%-]+", j["src"].split("return")[1])))) .__str__() for (k, j, r), c in zip(vmeta, vcodes) if c is not None and c & 8).most_common(12))
+    ctx.extra["lexer_cases"] = {"texts": len(llines), "layout": sum(1 for m in lmeta2 if m[0] == "layout"), "adjacent": sum(1 for m in lmeta2 if m[0] == "adjacent"), "differ": len(lbad)}
     ctx.extra["value_cases"] = {"run": len(blocks), "rejected_by_typing": rejected, "spec_skipped": sum(1 for c in vcodes if c is not None and c & 8)}
     if bad_spec:
         k, l, t, lx = min(bad_spec, key=lambda x: len(x[2]))
@@ -374,6 +441,8 @@ def run(ctx):
         if bad_model:
             k, l, t, lx = bad_model[0]
             ctx.broken.append("correspondence: parser differs from the shift-reduce machine on the regenerated table on %d case(s), e.g. %s" % (len(bad_model), t[:200]))
+        if lbad:
+            ctx.broken.append("correspondence: the real lexer differs from the lexer model on %d text(s), e.g. %r -> %s" % (len(lbad), lbad[0][1], lbad[0][2]))
         if vbad_model:
             k, j, r = vbad_model[0]
             ctx.broken.append("correspondence: VM differs from the VM model on %d value case(s), e.g. %s" % (len(vbad_model), j["src"][:200]))
